@@ -12,3 +12,7 @@ import PeroVerif.Props.C15
 import PeroVerif.Spec.CtcMass
 import PeroVerif.Spec.Lm
 import PeroVerif.Spec.ConfNet
+import PeroVerif.Props.C01
+import PeroVerif.Props.C07
+import PeroVerif.Props.C12
+import PeroVerif.Props.C17
